@@ -149,6 +149,29 @@ class FaultyMap(dict):  # type: ignore[type-arg]
         return super().__getitem__(key)
 
 
+TENANT_SOURCES = {"acme/footer": "(c) ACME {% increment n %}", "globex/footer": "(c) Globex {% increment n %}", "acme/base": "A<{% block b %}{% endblock %}>", "globex/base": "G<{% block b %}{% endblock %}>",
+                  "acme/child": "{% extends 'base' %}{% block b %}a{% endblock %}", "globex/child": "{% extends 'base' %}{% block b %}g{% endblock %}"}
+TENANT_PAGE = "{{ tenant }}|{% render 'footer' %}|{% include 'footer' %}|{% include 'child' %}"
+
+
+def _tenant_loader() -> Any:
+    from liquid2 import DictLoader
+    from liquid2.builtin.loaders.mixins import CachingLoaderMixin
+
+    class TenantLoader(CachingLoaderMixin, DictLoader):
+        """Serves `<tenant>/<name>`, the tenant coming from the render context; namespace_key keeps tenants apart."""
+
+        def __init__(self, templates: dict[str, str]) -> None:
+            super().__init__(namespace_key="tenant")
+            DictLoader.__init__(self, templates)
+
+        def get_source(self, env: Any, template_name: str, *, context: Any = None, **kwargs: Any) -> Any:
+            tenant = context.resolve("tenant", default="") if context else ""
+            return super().get_source(env, f"{tenant}/{template_name}")
+
+    return TenantLoader(dict(TENANT_SOURCES))
+
+
 class World:
     def __init__(self) -> None:
         import liquid2
@@ -160,6 +183,12 @@ class World:
         self.env = Environment(loader=DictLoader(self.loader_templates), globals={"site": "S"})
         self.templates = {k: self.env.from_string(v, name=k) for k, v in TEMPLATES.items()}
         self.extra: list[Any] = []
+        # a second shared environment with auto-escape on (string literals are Markup there)
+        self.env_ae = Environment(loader=DictLoader(self.loader_templates), globals={"site": "S"}, auto_escape=True)
+        self.templates_ae = {k: self.env_ae.from_string(v, name=k) for k, v in TEMPLATES.items()}
+        # a third one whose caching loader serves per-tenant sources, the tenant being a render variable
+        self.env_tenant = Environment(loader=_tenant_loader())
+        self.tenant_page = self.env_tenant.from_string(TENANT_PAGE, name="page")
 
     # every operation returns a JSON-able outcome
     def perform(self, op: tuple) -> Any:  # noqa: PLR0911, PLR0912
@@ -173,6 +202,17 @@ class World:
             if kind == "render_async":
                 _, name, di = op
                 return self._async(self.templates[name].render_async(**seams.wrap_data(DATA[di])))
+            if kind == "render_ae":
+                _, name, di = op
+                return ["ok", self.templates_ae[name].render(**DATA[di])]
+            if kind == "render_ae_async":
+                _, name, di = op
+                return self._async(self.templates_ae[name].render_async(**seams.wrap_data(DATA[di])))
+            if kind == "tenant":
+                _, tenant, mode = op
+                if mode == "sync":
+                    return ["ok", self.tenant_page.render(tenant=tenant)]
+                return self._async(self.tenant_page.render_async(tenant=tenant))
             if kind == "analyze":
                 a = self.templates[op[1]].analyze()
                 return ["ok", [sorted(a.variables), sorted(a.filters), sorted(a.tags), sorted(a.globals)]]
@@ -278,8 +318,18 @@ class World:
         return out
 
 
+AE_NAMES = ("nowfilter", "todayfilter", "now", "today", "capture")
+TENANT_OPS = [("tenant", t, m) for t in ("acme", "globex") for m in ("sync", "async")]
+
+
 def probe_ops() -> list[tuple]:
-    return [("render", name, 0) for name in TNAMES] + [("render_async", name, 1) for name in ("counter", "cycle", "include", "drops", "nowfilter")]
+    return (
+        [("render", name, 0) for name in TNAMES]
+        + [("render_async", name, 1) for name in ("counter", "cycle", "include", "drops", "nowfilter")]
+        + [("render_ae", name, 0) for name in AE_NAMES]
+        + [("render_ae_async", "nowfilter", 1)]
+        + TENANT_OPS
+    )
 
 
 # ------------------------------------------------------------------ fresh-interpreter baselines
@@ -349,6 +399,10 @@ def alphabet(tier: str) -> list[tuple]:
         ops.append(("pkg_render", name, 0))
     for v in (0, 1, 2):
         ops.append(("other_env", v))
+    for name in AE_NAMES:
+        ops.append(("render_ae", name, 0))
+    ops.append(("render_ae_async", "nowfilter", 1))
+    ops.extend(TENANT_OPS)
     ops.append(("advance",))
     n = fault_free_accesses("drops", 0)
     for k in range(1, n + 1):
@@ -365,6 +419,7 @@ def reduced_alphabet() -> list[tuple]:
         ("render", "nowfilter", 0), ("render", "todayfilter", 0), ("render", "now", 0), ("render_async", "include", 1),
         ("render", "extends", 0), ("render", "macro", 0), ("analyze", "extends"), ("pkg_render", "nowfilter", 0),
         ("other_env", 0), ("advance",), ("fault", "drops", 0, 2), ("cancel", "drops", 0, 2),
+        ("render_ae", "nowfilter", 0), ("tenant", "acme", "async"), ("tenant", "globex", "async"),
     ]  # fmt: skip
 
 
@@ -387,7 +442,7 @@ def run_history(hist: tuple, res: ShardResult | None) -> list[tuple[str, Any, An
         got = w.perform(op)
         if res is not None:
             res.transitions += 1
-        if op[0] in ("render", "render_async", "fault", "cancel", "get_template", "from_string", "pkg_render"):
+        if op[0] in ("render", "render_async", "fault", "cancel", "get_template", "from_string", "pkg_render", "render_ae", "render_ae_async", "tenant"):
             stateful += 1
         want = _BASE[_bkey(op, clock)]
         if op[0] == "cancel" and got[0] == "cancelled":
